@@ -114,7 +114,10 @@ func genLinkTarget(r *RNG, linkPath string, existing []string) string {
 		return "/" + r.Pick(namePool) + "/missing"
 	case 8: // sibling name (possibly created later, possibly itself: a loop)
 		return r.Pick(namePool)
-	default: // parent-relative
+	default: // parent-relative (climbing out of the tree's root only rarely)
+		if dir == "/" && !r.Chance(1, 8) {
+			return r.Pick(namePool)
+		}
 		return "../" + r.Pick(namePool)
 	}
 }
